@@ -257,14 +257,18 @@ def run(ctx) -> None:
         ctx.ok("R29f", inst)
     else:
         ctx.fail("R29f", up, up.node, inst, "a new tag value is not stored under its own name")
+    # the existing entry: the local assigned from `self.map.get(<par>.name)` / `self.map[<par>.name]` (by role)
+    cur = next((k for k, v in local_single_defs(up).items() if "self.map" in norm(v) and f"{par}.name" in norm(v)), None)
+    if cur is None:
+        raise AnchorError("TagsInfo.upsert: lookup of the existing entry not found")
     w = {t.attr: norm(v) for n in gu.nodes if n.kind == "stmt" and n.ast is not None for t, v, st in assigned_attrs(n.ast)
-         if norm(t.value) == "current"}
+         if norm(t.value) == cur}
     inst = "TagsInfo.upsert: update overwrites value and tick_time from the same message"
     if w.get("value") == f"{par}.value" and w.get("tick_time") == f"{par}.tick_time":
         vn = [n for n in gu.nodes if n.kind == "stmt" and n.ast is not None and any(
-            t.attr == "value" and norm(t.value) == "current" for t, v, st in assigned_attrs(n.ast))][0]
+            t.attr == "value" and norm(t.value) == cur for t, v, st in assigned_attrs(n.ast))][0]
         tn = [n for n in gu.nodes if n.kind == "stmt" and n.ast is not None and any(
-            t.attr == "tick_time" and norm(t.value) == "current" for t, v, st in assigned_attrs(n.ast))][0]
+            t.attr == "tick_time" and norm(t.value) == cur for t, v, st in assigned_attrs(n.ast))][0]
         # both on the same paths: neither reachable to exit without the other
         a = gu.path_to_exit_avoiding([vn.id], lambda n: n.id == tn.id, follow_exc=False)
         b = gu.search(None, lambda n: n.id == tn.id, blocked=lambda n: n.id == vn.id, follow_exc=False)
